@@ -680,48 +680,97 @@ class Extraction:
         return text
 
     # ------------------------------------------------------------------------------------------
-    def render(self, keep_fns=None, lib_items=None, canary=None, extra=""):
-        """keep_fns: set of function keys to include (None = all).  lib_items: list of library item texts."""
-        out = ["#![allow(unused, non_snake_case, non_camel_case_types)]", "use vstd::prelude::*;", "use core::cmp::Ordering;", "verus! {", ""]
-        for t in (lib_items or []):
-            out.append(t)
-            out.append("")
-        pending_impl = None
+    def render(self, keep_fns=None, lib_items=None, canary=False):
+        """keep_fns: set of function keys to include (None = all).  lib_items: [(name, kind, text, file)].
+        canary=True: every exec body and every lemma body starts with `assert(false)` (vacuity probe: each
+        must then FAIL; one that passes has an unsatisfiable precondition).
+        Returns (text, spans) with spans = [(first_line, last_line, name, kind)]."""
+        pieces = []  # (text, name or None, kind)
+
+        def add(text, name=None, kind=None):
+            pieces.append((text, name, kind))
+
+        add("#![allow(unused, non_snake_case, non_camel_case_types)]\nuse vstd::prelude::*;\nuse core::cmp::Ordering;\nverus! {\n")
+        for (n, k, t, f) in (lib_items or []):
+            if canary and k == "proof":
+                t = re.sub(r"(?m)^\{[ \t]*$", "{\n    assert(false); // canary", t, count=1)
+            add(t + "\n", n, k)
+        impl_open = None
+        impl_has = False
         for ch in self.order:
             if ch[0] == "impl_open":
-                pending_impl = [ch[1]]
+                impl_open, impl_has = ch[1], False
                 continue
             if ch[0] == "impl_close":
-                if pending_impl is not None and len(pending_impl) > 1:
-                    out.extend(pending_impl)
-                    out.append("}")
-                    out.append("")
-                pending_impl = None
+                if impl_has:
+                    add("}\n")
+                impl_open = None
                 continue
             if ch[0] == "fn":
                 key, text = ch[1], ch[2]
                 if keep_fns is not None and key not in keep_fns:
                     continue
-                if canary and key in canary:
-                    text = canary[key](text)
-                tgt = pending_impl if pending_impl is not None else out
-                tgt.append(text)
-                tgt.append("")
+                if canary:
+                    text = _canary_body(text, self.functions[key])
+                if impl_open is not None and not impl_has:
+                    add(impl_open + "\n")
+                    impl_has = True
+                add(text + "\n", self.functions[key]["qual"], "exec")
             elif ch[0] == "const":
-                tgt = pending_impl if pending_impl is not None else out
-                tgt.append(ch[1])
+                if impl_open is not None and not impl_has:
+                    add(impl_open + "\n")
+                    impl_has = True
+                add(ch[1] + "\n")
             else:
-                out.append(ch[1])
-                out.append("")
-        out.append(extra)
-        out.append("} // verus!")
-        out.append("fn main() {}")
-        return "\n".join(out) + "\n"
+                add(ch[1] + "\n")
+        add("} // verus!\nfn main() {}\n")
+        out, spans, line = [], [], 1
+        for text, name, kind in pieces:
+            nl = text.count("\n")
+            if name is not None:
+                spans.append((line, line + nl, name, kind))
+            out.append(text)
+            out.append("\n")
+            line += nl + 1
+        return "".join(out), spans
+
+
+def _canary_body(text, info):
+    """insert `assert(false)` at the start of the (real) body, after any `open` ghost text"""
+    con = info["contract"]
+    if con is not None and con.external_body:
+        return text
+    its = rl.parse_items(strip_inserts_keep_len(text))
+    it = its[0]
+    pos = it.body_open + 1
+    if con is not None and con.opens.strip():
+        # the open block is the first insert after the brace
+        j = text.find(INS_R, pos)
+        if j > 0 and text[pos:pos + len(INS_L)] == INS_L:
+            pos = j + len(INS_R)
+    return text[:pos] + INS_L + " proof { assert(false); } " + INS_R + text[pos:]
+
+
+def strip_inserts_keep_len(text):
+    """blank out inserted regions (same length) so that offsets stay valid"""
+    out = list(text)
+    i = 0
+    while True:
+        j = text.find(INS_L, i)
+        if j < 0:
+            break
+        k = text.find(INS_R, j)
+        k2 = k + len(INS_R)
+        for q in range(j, k2):
+            if out[q] != "\n":
+                out[q] = " "
+        i = k2
+    return "".join(out)
 
 
 if __name__ == "__main__":
     ex = Extraction(sys.argv[1] if len(sys.argv) > 1 else "/repo")
-    sys.stdout.write(ex.render())
+    sys.stdout.write(ex.render()[0])
     sys.stderr.write(json.dumps(ex.counts, indent=1) + "\n")
 
 
